@@ -26,7 +26,10 @@ PROFILES = {
     "C03": dict(peers=pipegen.DISTINCT_PEERS[:4], reup=True, metrics=False, query_ops=True, reload=True, reload_pc=30),
     "C15": dict(peers=[0, 3, 5, 6, 8], reup=True, metrics=True, query_ops=False, reload=True),
     # C13: the configuration is reloaded under traffic; sessions and RIB contents must survive, later routers must be served
-    "C13": dict(peers=pipegen.DISTINCT_PEERS, reup=False, metrics=False, query_ops=True, reload=True, reload_pc=100),
+    # (variants = reloads that change the bmp unit's router_id_template; V k reads which template labels a router's series)
+    "C13": dict(peers=pipegen.DISTINCT_PEERS, reup=False, metrics=False, query_ops=True, reload=True, reload_pc=100, variants=True),
+    # C14: routers come back, also after the listener was re-bound; G k = how many ingress ids router k has been given
+    "C14": dict(peers=pipegen.DISTINCT_PEERS[:3], reup=True, metrics=False, query_ops=False, reload=True, reload_pc=60, ids=True),
 }
 
 CORPUS = {
@@ -71,6 +74,20 @@ CORPUS = {
         "H;C 0;I 0;U 0 0 0;R 0 0 0 2 1 0 -;Q 0 1",
         # sessions and RIB contents survive reloads; the listener moves; a lost connection after a reload still cleans up
         "C 0;I 0;U 0 0 0;R 0 0 0 1 1,2 0 -;L;R 0 0 0 2 2 0 -;H;Q 0 1;Q 0 2;C 1;I 1;U 1 0 0;R 1 0 0 3 1 0 -;L;X 0;Q 0 1;Q 0 2",
+        # every reload is applied, not only the first: the second one's router_id_template labels the router that connects after it
+        # (seeded C13-1: the manager kept the agent of the unit's old gate, so only the first reload reached the unit)
+        "H 1;C 0;I 0;V 0;H 2;C 1;I 1;V 1;V 0",
+        "C 0;I 0;U 0 0 0;R 0 0 0 1 1 0 -;H 1;H 0;H 2;C 1;I 1;U 1 0 0;R 1 0 0 2 1 0 -;V 1;V 0;Q 0 1",
+        # a reload that moves the listener AND changes another setting applies both (seeded C13-3: the re-bind path returned early)
+        "L 1;C 0;I 0;V 0;L 2;C 1;I 1;V 1;V 0",
+        "C 0;I 0;L 2;C 1;I 1;U 1 5 0;R 1 5 0 1 1 0 -;V 1;V 0;Q 0 1",
+    ],
+    "C14": [
+        # a router that comes back is given the id it had - also after the listener was re-bound (seeded C14-3: the unit
+        # re-registered its own id on every bind, so the lookup by (parent, address) missed)
+        "C 0;I 0;G 0;X 0;C 0;I 0;G 0",
+        "C 0;I 0;G 0;X 0;L;C 0;I 0;G 0",
+        "C 0;C 1;I 0;I 1;G 0;G 1;L;X 1;X 0;H;C 1;C 0;G 0;G 1;L;X 0;C 0;G 0",
     ],
 }
 
@@ -99,15 +116,37 @@ def e2e_engine(prop):
                         out.append(f"M {k}")
             if pr.get("reload") and rng.chance(pr.get("reload_pc", 15)):
                 # configuration reloads, with or without a new listen port, at random points
-                for _ in range(rng.range(1, 2)):
-                    out.insert(rng.below(len(out) + 1), rng.choice(["L", "H", "H"]))
+                kinds = ["L", "H", "H"] if not pr.get("variants") else ["L", "H", "H 1", "H 2", "L 1", "L 2", "H 0", "L 0"]
+                for _ in range(rng.range(1, 3 if pr.get("variants") else 2)):
+                    out.insert(rng.below(len(out) + 1), rng.choice(kinds))
+            if pr.get("variants") or pr.get("ids"):
+                # read the label / the id count of every router after each of its Initiation messages, after reloads and at the end
+                tok = "V" if pr.get("variants") else "G"
+                res, live = [], []
+                for o in out:
+                    res.append(o)
+                    w = o.split()
+                    if w[0] == "C" and w[1] not in live:
+                        live.append(w[1])
+                    if w[0] == "X" and w[1] in live:
+                        live.remove(w[1])
+                    if w[0] == "I" and w[1] in live:
+                        res.append(f"{tok} {w[1]}")
+                    if w[0] in ("L", "H") and live and rng.chance(50):
+                        res.append(f"{tok} {rng.choice(live)}")
+                out = res + [f"{tok} {k}" for k in live]
             yield ";".join(out)
 
     def nontrivial(case, out):
         t = out.split()
         if any(x.startswith("q:") and ("," in x or "=W" in x) for x in t):
             return True
-        return any(x.startswith("n:") and not x.endswith(",0") for x in t)
+        if any(x.startswith("n:") and not x.endswith(",0") for x in t):
+            return True
+        if any(x.startswith("t:") and x not in ("t:0", "t:-") for x in t):
+            return True
+        ops = case.split(";")
+        return any(x.startswith("g:") for x in t) and any(o.startswith("X") for o in ops)
 
     def classify(case, out):
         t = out.split()
@@ -123,8 +162,13 @@ def e2e_engine(prop):
                 break
         if seen_x:
             ks.append("connection-lost")
-        if "L" in ops:
+        if any(o.split()[0] == "L" for o in ops if o.split()):
             ks.append("listener-rebound")
+        n_rel = sum(1 for o in ops if o.split() and o.split()[0] in ("L", "H"))
+        if n_rel:
+            ks.append("reloads>=2" if n_rel >= 2 else "reloads=1")
+        if any(x.startswith("t:") and x not in ("t:0", "t:-") for x in t):
+            ks.append("label-follows-new-template")
         if any(x.startswith("q:") and "=W" in x for x in t):
             ks.append("query-shows-withdrawn")
         if any(x.startswith("q:") and "," in x for x in t):
